@@ -264,24 +264,37 @@ func c12Invoice(a []V) []V {
 	if tags := c12Tags(a[7]); len(tags) > 0 {
 		doc["$tags"] = tags
 	}
-	if kind == 0 {
+	// kind: 0/1 invoice, 2/3 order, 4/5 delivery; even = dated by issue_date, odd = by value_date with an
+	// issue date and an operation date elsewhere (the operation date must not be taken for the tax date)
+	if kind%2 == 0 {
 		doc["issue_date"] = d.String()
 	} else {
 		doc["issue_date"] = "2000-02-02"
+		doc["op_date"] = "2001-03-03"
 		doc["value_date"] = d.String()
 	}
 	text, err := json.Marshal(doc)
 	if err != nil {
 		return []V{VErr("marshal")}
 	}
-	inv := new(bill.Invoice)
-	if err := json.Unmarshal(text, inv); err != nil {
+	var calc interface {
+		Calculate() error
+	}
+	switch kind / 2 {
+	case 1:
+		calc = new(bill.Order)
+	case 2:
+		calc = new(bill.Delivery)
+	default:
+		calc = new(bill.Invoice)
+	}
+	if err := json.Unmarshal(text, calc); err != nil {
 		return []V{VErr("unmarshal")}
 	}
-	if err := inv.Calculate(); err != nil {
+	if err := calc.Calculate(); err != nil {
 		return c12ErrKind(err)
 	}
-	outText, err := json.Marshal(inv)
+	outText, err := json.Marshal(calc)
 	if err != nil {
 		return []V{VErr("marshal")}
 	}
